@@ -146,7 +146,7 @@ func (e *c04Env) restartProc() string {
 		e.dead = true
 		return "corrupt"
 	}
-	if _, err := s.WaitForLeader(15 * time.Second); err != nil {
+	if _, err := s.WaitForLeader(120 * time.Second); err != nil {
 		e.t.Fatalf("no leader after restart: %v (history %v)", err, e.hist)
 	}
 	// wait until the FSM has applied the whole replayed log
@@ -270,6 +270,56 @@ func (e *c04Env) do(op string, r *vfRng) {
 		}
 		e.emit("snapbegin"+e.lvl, res)
 		e.hist = append(e.hist, "FSM.Snapshot():"+res)
+	case op == "snapbeginfail":
+		// FSM.Snapshot() whose checkpoint succeeds and whose WAL cannot be staged: while it runs, a
+		// watcher turns the CRC sidecar path of the WAL file being written into a directory, so that
+		// walWriter.Close fails. If the watcher loses the race this is an ordinary FSM.Snapshot().
+		if e.pend != nil {
+			e.t.Fatal("harness: snapbeginfail while a snapshot is pending")
+		}
+		fb, ib := s.numFullSnapshots, s.numIncSnapshots.Load()
+		if dn, _ := s.snapshotDueNext(); dn == snapshot.Full {
+			e.noteBaseChange()
+		}
+		idx, term := s.raft.AppliedIndex(), s.raft.CurrentTerm()
+		stop, done := make(chan struct{}), make(chan struct{})
+		go func() {
+			defer close(done)
+			for {
+				select {
+				case <-stop:
+					return
+				default:
+				}
+				if ms, _ := filepath.Glob(filepath.Join(s.walStagingDir, "*.wal")); len(ms) > 0 {
+					for _, m := range ms {
+						if _, err := os.Stat(m + ".crc32"); err != nil {
+							os.Mkdir(m+".crc32", 0o755)
+						}
+					}
+				}
+			}
+		}()
+		f, err := NewFSM(s).Snapshot()
+		close(stop)
+		<-done
+		switch {
+		case err == ErrNoWALToSnapshot:
+			e.emit("snapbeginfail"+e.lvl, "nowal")
+			e.hist = append(e.hist, "FSM.Snapshot():nowal")
+		case err != nil:
+			e.emit("snapbeginfail"+e.lvl, "err-stage")
+			e.hist = append(e.hist, "FSM.Snapshot() fails staging the checkpointed WAL: "+err.Error())
+		default:
+			e.pend, e.pendIdx, e.pendTerm = f, idx, term
+			res := e.snapKind(fb, ib)
+			if res == "full" {
+				e.emit("snapbeginfail"+e.lvl, res)
+			} else {
+				e.emit("snapbegin"+e.lvl, res) // the watcher was too late
+			}
+			e.hist = append(e.hist, "FSM.Snapshot():"+res)
+		}
 	case strings.HasPrefix(op, "snapend "):
 		outcome := strings.TrimPrefix(op, "snapend ")
 		if e.pend == nil {
@@ -310,6 +360,43 @@ func (e *c04Env) do(op string, r *vfRng) {
 		case "failbefore":
 			if perr := e.pend.Persist(&mockSnapshotSink{nil, fmt.Errorf("verif: sink write error"), nil}); perr == nil {
 				e.t.Fatal("mock sink did not fail")
+			}
+		case "failafter":
+			// Sink.Close fails at its final rename (the snapshot's name is taken by a plain file,
+			// which the catalog ignores): for an incremental snapshot that is after the staging
+			// directory has been consumed, and the sink exits the process
+			cf := s.raft.GetConfiguration()
+			if err := cf.Error(); err != nil {
+				e.t.Fatal(err)
+			}
+			sink, err := s.snapshotStore.Create(1, e.pendIdx, e.pendTerm, cf.Configuration(), 1, nil)
+			if err != nil {
+				e.t.Fatalf("snapend: create sink: %v", err)
+			}
+			fatal := false
+			c04CatchFatal(sink, &fatal)
+			blocker := filepath.Join(s.snapshotDir, sink.ID())
+			if err := e.pend.Persist(sink); err != nil {
+				sink.Cancel()
+			} else {
+				if err := os.WriteFile(blocker, []byte("verif"), 0o644); err != nil {
+					e.t.Fatal(err)
+				}
+				if err := sink.Close(); err == nil {
+					e.t.Fatal("harness: Close succeeded although its final name is taken")
+				}
+				os.Remove(blocker)
+			}
+			if fatal {
+				e.pend.Release()
+				e.pend, e.pendSuperseded = nil, false
+				e.hist = append(e.hist, "Persist+Close(final rename fails):process exit (Sink.Close fatal)")
+				if r := e.restartProc(); r == "ok" {
+					e.emit(op, "fatal-exit")
+				} else {
+					e.emit(op, r)
+				}
+				return
 			}
 		}
 		e.pend.Release()
@@ -455,13 +542,15 @@ func c04NewEnv(t *testing.T, rep *vfReport) *c04Env {
 	t.Cleanup(func() { ln.Close() })
 	s.SnapshotReapThreshold = 100000
 	s.NoSnapshotOnClose = true
+	// a single node: short raft timeouts only shorten the election after every (re)start
+	s.HeartbeatTimeout, s.ElectionTimeout, s.LeaderLeaseTimeout = 200*time.Millisecond, 200*time.Millisecond, 200*time.Millisecond
 	if err := s.Open(); err != nil {
 		t.Fatalf("open: %v", err)
 	}
 	if err := s.Bootstrap(NewServer(s.ID(), s.Addr(), true)); err != nil {
 		t.Fatalf("bootstrap: %v", err)
 	}
-	if _, err := s.WaitForLeader(15 * time.Second); err != nil {
+	if _, err := s.WaitForLeader(120 * time.Second); err != nil {
 		t.Fatalf("leader: %v", err)
 	}
 	e := &c04Env{t: t, s: s, rep: rep, lvl: os.Getenv("VERIF_C04_LVL")}
@@ -472,7 +561,7 @@ func c04NewEnv(t *testing.T, rep *vfReport) *c04Env {
 }
 
 func TestVerifC04(t *testing.T) {
-	rep := vfNewReport("C04", "histories on a real single-node Store (8-16 steps [thorough 12-40]): write batches (35% page-heavy), snapshot via raft + real sink, snapshot with Persist not invoked / failing before the staged WAL is consumed, load (raft LOAD entry), boot, follower-style install (real sink + FSM.Restore), reap, restart with forced restore; first the directed history of the design pass, then generated ones biased towards 'staged WAL present when the base database changes'; after every step rows of the table, number of staged WALs, number of snapshots and DueNext compared with the model; at every restart the node must open and hold the rows it had applied; non-trivial: at least one snapshot is not installed and one restart happens; distinct by op text")
+	rep := vfNewReport("C04", "histories on a real single-node Store (8-16 steps [thorough 12-40]): write batches (35% page-heavy), snapshot via raft + real sink, FSM.Snapshot() and Persist+Close driven separately with applies or a snapshot install in between, snapshot with Persist not invoked / failing before the staged WAL is consumed / Close failing at its final rename (the sink's process exit is caught and followed by a restart), FSM.Snapshot() failing to stage the checkpointed WAL, load (raft LOAD entry), boot, follower-style install (real sink + FSM.Restore), reap, restart with forced restore; first 14 directed histories (every confirmed defect shape and every interleaving around a snapshot in flight), then generated ones biased towards 'staged WAL present when the base database changes'; after every step rows of the table, number of staged WALs, number of snapshots and DueNext compared with the model; at every restart the node must open and hold the rows it had applied; non-trivial: at least one snapshot is not installed and one restart happens; distinct by op text")
 	defer rep.Write()
 	r := vfNewRng(4)
 	var allOps, allImpl [][]string
@@ -488,6 +577,12 @@ func TestVerifC04(t *testing.T) {
 			if e.pend == nil && strings.HasPrefix(op, "snapend ") {
 				continue
 			}
+			if e.pend != nil && op == "snapbeginfail" {
+				continue
+			}
+			if e.pendSuperseded && op == "snapend failafter" {
+				op = "snapend ok" // the staging directory is already gone: Close fails before its final rename
+			}
 			e.do(op, r)
 			e.observe()
 		}
@@ -500,7 +595,8 @@ func TestVerifC04(t *testing.T) {
 		}
 		skipped, restarts := false, false
 		for _, o := range ops {
-			if o == "snap notinvoked" || o == "snap failbefore" {
+			if o == "snap notinvoked" || o == "snap failbefore" || o == "snapend notinvoked" || o == "snapend failbefore" ||
+				o == "snapend failafter" || o == "snapbeginfail" {
 				skipped = true
 			}
 			if o == "restart" {
@@ -523,20 +619,41 @@ func TestVerifC04(t *testing.T) {
 		run(strings.Split(h, ","))
 		return
 	}
-	// the history of the design pass: full; writes; snapshot not persisted; load; write; snapshot;
-	// write; snapshot; restart
-	run([]string{"write", "snap ok", "bigwrite", "bigwrite", "snap notinvoked", "load", "bigwrite", "snap ok", "write", "snap ok", "restart"})
-	run([]string{"write", "snap ok", "bigwrite", "snap failbefore", "install", "bigwrite", "snap ok", "restart", "write", "snap ok", "restart"})
-	// a load applied between FSM.Snapshot() and Persist/Close of a full snapshot (raft allows it);
-	// then a full snapshot that is not persisted; then an ordinary snapshot
-	run([]string{"write", "snapbegin", "load", "snapend ok", "bigwrite", "snapbegin", "snapend notinvoked", "bigwrite", "snap ok", "restart"})
-	run([]string{"write", "snap ok", "bigwrite", "snapbegin", "load", "snapend ok", "bigwrite", "snap ok", "bigwrite", "snap ok", "restart"})
-	// a snapshot from the leader installed while a local snapshot is in flight: an incremental
-	// (its Close then takes the sink's fatal exit: restart), a full one, and ones that are not persisted
-	run([]string{"write", "snap ok", "bigwrite", "snapbegin", "install", "snapend ok", "write", "snap ok", "restart"})
-	run([]string{"write", "snapbegin", "install", "snapend ok", "bigwrite", "snap ok", "restart", "write", "snap ok", "restart"})
-	run([]string{"write", "snap ok", "bigwrite", "snapbegin", "install", "snapend failbefore", "bigwrite", "snap ok", "write", "snap ok", "restart"})
-	nSeq := vfScale(5, 120)
+	// A fixed set of short directed histories, run in every tier: each shape of a defect that was
+	// confirmed on the real code (and repaired), plus the interleavings raft permits around a
+	// snapshot in flight.
+	for _, h := range [][]string{
+		// 6482ad3: a snapshot whose persist is skipped / fails leaves a staged WAL; the base database then
+		// changes (load, install, boot); full; incremental; restore
+		{"write", "snap ok", "bigwrite", "bigwrite", "snap notinvoked", "load", "bigwrite", "snap ok", "write", "snap ok", "restart"},
+		{"write", "snap ok", "bigwrite", "snap failbefore", "install", "bigwrite", "snap ok", "restart", "write", "snap ok", "restart"},
+		{"write", "snap ok", "bigwrite", "snap notinvoked", "boot", "bigwrite", "snap ok", "restart"},
+		// the seeded interleaving: FSM.Snapshot() [full of A]; Load(B) applied before Persist/Close;
+		// Persist+Close install full(A); writes; next snapshot; forced-restore restart
+		{"write", "snapbegin", "load", "snapend ok", "bigwrite", "snap ok", "restart"},
+		// bb0a5c5: … then a full snapshot that is not persisted, then an ordinary snapshot
+		{"write", "snapbegin", "load", "snapend ok", "bigwrite", "snapbegin", "snapend notinvoked", "bigwrite", "snap ok", "restart"},
+		{"write", "snap ok", "bigwrite", "snapbegin", "load", "snapend ok", "bigwrite", "snap ok", "bigwrite", "snap ok", "restart"},
+		// a snapshot from the leader installed while a local snapshot is in flight: an incremental
+		// (its Close then takes the sink's fatal exit: restart), a full one, ones that are not persisted
+		{"write", "snap ok", "bigwrite", "snapbegin", "install", "snapend ok", "write", "snap ok", "restart"},
+		{"write", "snapbegin", "install", "snapend ok", "bigwrite", "snap ok", "restart", "write", "snap ok", "restart"},
+		{"write", "snap ok", "bigwrite", "snapbegin", "install", "snapend failbefore", "bigwrite", "snap ok", "write", "snap ok", "restart"},
+		{"write", "snap ok", "bigwrite", "snapbegin", "install", "snapend notinvoked", "bigwrite", "snap ok", "restart"},
+		// 4670e70: the checkpoint succeeds, staging its WAL fails; write; snapshot; restore
+		{"write", "snap ok", "bigwrite", "snapbeginfail", "snapend ok", "bigwrite", "snap ok", "restart"},
+		// Sink.Close failing at its final rename: after the staged WAL was consumed (fatal exit), and for a full snapshot
+		{"write", "snap ok", "bigwrite", "snapbegin", "snapend failafter", "bigwrite", "snap ok", "restart"},
+		{"write", "snapbegin", "snapend failafter", "bigwrite", "snap ok", "restart"},
+		// a chain of incrementals, reap, more, restore
+		{"write", "snap ok", "bigwrite", "snap ok", "write", "snap ok", "reap", "write", "snap ok", "restart"},
+	} {
+		for _, o := range h {
+			rep.Count("op:" + strings.SplitN(o, " ", 2)[0])
+		}
+		run(h)
+	}
+	nSeq := vfScale(20, 120)
 	for i := 0; i < nSeq; i++ {
 		n := vfScale(8, 12) + r.Intn(vfScale(9, 29))
 		ops := []string{"write", "snap ok"}
@@ -555,7 +672,14 @@ func TestVerifC04(t *testing.T) {
 			case c < 12:
 				ops = append(ops, "bigwrite", "snapbegin", []string{"write", "load", "bigwrite", "noop", "install"}[r.Intn(5)], "snapend "+[]string{"ok", "ok", "notinvoked", "failbefore"}[r.Intn(4)])
 			case c < 13:
-				ops = append(ops, "write", "snap failbefore")
+				switch r.Intn(4) {
+				case 0:
+					ops = append(ops, "bigwrite", "snapbeginfail", "snapend ok")
+				case 1:
+					ops = append(ops, "bigwrite", "snapbegin", "snapend failafter")
+				default:
+					ops = append(ops, "write", "snap failbefore")
+				}
 			case c < 14:
 				ops = append(ops, "snap ok")
 			case c < 15:
